@@ -609,8 +609,8 @@ GROUPS = [
 def jobs(tier, scale=1.0):
     q = tier == "quick"
     js = []
-    counts = [16, 17, 33, 48] if q else [16, 17, 32, 33, 48, 64, 80, 100]
-    reps = 1 if q else 12
+    counts = [16, 17, 32, 33, 48, 64] if q else [16, 17, 32, 33, 48, 64, 80, 100]
+    reps = 2 if q else 12
     for g in GROUPS:
         heavy = any(f.endswith("Start") or "FMT" in f for f in g)
         for cnt in counts:
